@@ -9,7 +9,8 @@ from fractions import Fraction
 
 SCALARS = ["int", "long", "float", "bit", "bool", "char", "str"]
 ARR_ELTS = ["int", "long", "float", "bit", "char", "str"]
-NAMES = ["a", "b", "c", "n", "x", "y", "t", "k", "acc", "m", "p", "q0", "r", "s", "u", "w", "z"]
+# h, x, y, z, rx, ry, rz, cx are built-in gate names: a bare gate name is accepted as an expression, so they are kept out of the pool
+NAMES = ["a", "b", "c", "n", "xa", "yb", "t", "k", "acc", "m", "p", "q0", "r", "s", "u", "w", "zc"]
 BLOCH_TY = {"int": "int", "long": "long", "float": "float", "bit": "bit", "bool": "boolean",
             "char": "char", "str": "string", "void": "void"}
 
